@@ -9,10 +9,9 @@
    Kinds of dict an instance can have (tp_dictoffset):
      NoDict  - static extension type without __dict__, Python class with __slots__ = ()
      Eager   - extension type declaring `cdef dict __dict__` (or a subclass): tp_new runs PyDict_New
-     Managed - ordinary Python subclass (tp_dictoffset = -1): the dict object is made on demand,
-               _PyObject_GetDictPtr (called by __Pyx_get_object_dict_version) materialises it.
-               (abstraction: a SetInst on a not yet materialised dict materialises it; CPython 3.12
-                keeps inline values and assigns the tag later - both tags are fresh.) *)
+     Managed - ordinary Python subclass (tp_dictoffset = -1): no dict object until the first
+               attribute store OR the first (even failing) attribute deletion creates one
+               (_PyObjectDict_SetItem makes the dict before PyDict_DelItem raises KeyError). *)
 From Coq Require Import ZArith List Bool Lia.
 Import ListNotations.
 Open Scope Z_scope.
@@ -194,19 +193,14 @@ Definition set_class (w : world) (c : nat) (e : option value) : world :=
 Definition set_obj (w : world) (oi : nat) (o : ostate) : world :=
   mkw (w_cls w) (upd (w_objs w) oi o) (w_cache w) (w_next w + 1).
 
-(* __Pyx_get_object_dict_version: tag of the instance dict, 0 if there is none; materialises a
-   managed dict *)
+(* __Pyx_get_object_dict_version: tag of the instance dict, 0 if there is none.  (Instances of
+   Python subclasses of extension types are allocated by the extension type's tp_new through
+   tp_alloc, not object_new: on CPython 3.12 they start with neither inline values nor a dict,
+   and _PyObject_GetDictPtr returns a pointer to NULL until something creates the dict.) *)
 Definition read_obj_ver (h : hier) (w : world) (oi : nat) : world * Z :=
   match nth_error (w_objs w) oi with
   | None => (w, 0)
-  | Some o =>
-      match os_dict o with
-      | Some (_, v) => (w, v)
-      | None => match cdictk (getc h (os_cls o)) with
-                | Managed => (set_obj w oi (mkos (os_cls o) (Some (None, w_next w))), w_next w)
-                | _ => (w, 0)
-                end
-      end
+  | Some o => match os_dict o with Some (_, v) => (w, v) | None => (w, 0) end
   end.
 
 Definition VINIT : Z := -1.     (* __PYX_DICT_VERSION_INIT = (PY_UINT64_T) -1 *)
@@ -289,7 +283,11 @@ Definition step_cy (cached fx : bool) (h : hier) (w : world) (o : op) : world * 
       (match nth_error (w_objs w) oi with
        | Some o => match os_dict o with
                    | Some (Some _, _) => set_obj w oi (mkos (os_cls o) (Some (None, w_next w)))
-                   | _ => w end
+                   | Some (None, _) => w           (* KeyError -> AttributeError, dict unchanged *)
+                   | None => match cdictk (getc h (os_cls o)) with
+                             | Managed => set_obj w oi (mkos (os_cls o) (Some (None, w_next w)))
+                             | _ => w end
+                   end
        | None => w end, None)
   | CallPy oi =>
       match nth_error (w_objs w) oi with
